@@ -24,22 +24,36 @@
 (* (proc.go:96-145) with the client waiting for the outcome before the     *)
 (* next step.  An established relay is closed by its watcher as soon as    *)
 (* the removal latch of the chosen OBJECT is closed.                        *)
+(*                                                                         *)
+(* Half-close.  An established relay is in one of three states when its    *)
+(* host is removed: "open"; "chc" - the client has shut down its write     *)
+(* side (the client->backend copy of HandleConn has ended, the backend is  *)
+(* still sending); "bhc" - the backend has shut down its write side (the   *)
+(* backend->client copy has ended, the client is still open).  The watcher *)
+(* goroutine of the real code lives until HandleConn returns, i.e. until   *)
+(* BOTH directions have ended, so it closes the relay in all three states. *)
+(* The constant WatcherLeaves is the set of half-close states in which the *)
+(* watcher has already exited: {} for the real code; {"chc"} is the        *)
+(* regression "the watcher exits when the client->backend copy ends"       *)
+(* (`case <-done:`), which must violate EstablishedClosed (anti-vacuity).  *)
 (***************************************************************************)
 EXTENDS HostSet
 
 CONSTANTS Policy,      \* "rr" | "random" | "lc"
           Rise, Fall,  \* thresholds of the health check
-          MaxRounds, MaxConns, MaxToggles
+          MaxRounds, MaxConns, MaxToggles,
+          MaxHalf,        \* half-closes per behaviour
+          WatcherLeaves   \* subset of {"chc", "bhc"}: states in which the watcher is gone
 
 VARIABLES up,       \* address -> the backend answers probes
           snap,     \* objects of the round whose probes are held ({}: monitor idle)
           succ, fail, \* counters per object (host.go:250-260)
           idx,      \* round-robin index
-          econns,   \* established relays: [id, o]
-          nconn, nround, ntog,
+          econns,   \* established relays: [id, o, st] with st in {"open", "chc", "bhc"}
+          nconn, nround, ntog, nhalf,
           elast     \* ghost: what the latest step did, for the invariants and the emitter
 
-evars == <<up, snap, succ, fail, idx, econns, nconn, nround, ntog, elast>>
+evars == <<up, snap, succ, fail, idx, econns, nconn, nround, ntog, nhalf, elast>>
 eall == <<vars, evars>>
 
 NoE == [kind |-> "none"]
@@ -48,11 +62,11 @@ EInit ==
   /\ Init
   /\ up = [a \in Addrs |-> TRUE] /\ snap = {}
   /\ succ = [o \in Objs |-> 0] /\ fail = [o \in Objs |-> 0]
-  /\ idx = 0 /\ econns = {} /\ nconn = 0 /\ nround = 0 /\ ntog = 0
+  /\ idx = 0 /\ econns = {} /\ nconn = 0 /\ nround = 0 /\ ntog = 0 /\ nhalf = 0
   /\ elast = NoE
 
 \* relays whose object's latch is closed are closed by their watcher (proc.go:126-137)
-Watch(conns) == {c \in conns : ~removed'[c.o]}
+Watch(conns) == {c \in conns : ~removed'[c.o] \/ c.st \in WatcherLeaves}
 
 \* property level (a host is its address): the relays that must be closed after this step
 \* because the address they are connected to left the set in this step
@@ -63,7 +77,7 @@ HostOpTail ==
   /\ snap' = IF snap = {} THEN {all'[a] : a \in {x \in Addrs : all'[x] # NoObj}} ELSE snap
   /\ econns' = Watch(econns)
   /\ elast' = [kind |-> "op", must |-> MustClose, closed |-> econns \ econns']
-  /\ UNCHANGED <<up, succ, fail, idx, nconn, nround, ntog>>
+  /\ UNCHANGED <<up, succ, fail, idx, nconn, nround, ntog, nhalf>>
 
 EAdd(a, t) == AddFresh(a, t) /\ HostOpTail         \* p.OnSvcHostAdd([fresh host])
 ERemove(a, t) == RemoveFresh(a, t) /\ HostOpTail   \* p.OnSvcHostRemove([fresh host])
@@ -78,7 +92,7 @@ Toggle(a) ==
   /\ up' = [up EXCEPT ![a] = ~@]
   /\ ntog' = ntog + 1
   /\ elast' = NoE
-  /\ UNCHANGED <<vars, snap, succ, fail, idx, econns, nconn, nround>>
+  /\ UNCHANGED <<vars, snap, succ, fail, idx, econns, nconn, nround, nhalf>>
 
 \* one object of a round: checkHostAndUpdateStatus (monitor.go:141-155) with both halves of
 \* a resulting MarkHost* call.  R = [S (maps), fl, su, fa]
@@ -114,7 +128,7 @@ Round ==
   /\ nround' = nround + 1
   /\ econns' = Watch(econns)
   /\ elast' = [kind |-> "round", must |-> {}, closed |-> econns \ econns']
-  /\ UNCHANGED <<nobj, oaddr, otype, inflight, nops, carried, owed, up, idx, nconn, ntog>>
+  /\ UNCHANGED <<nobj, oaddr, otype, inflight, nops, carried, owed, up, idx, nconn, ntog, nhalf>>
 
 \* one client connection.  `allowed` is the property's answer in the state of the load
 Conn ==
@@ -127,11 +141,23 @@ Conn ==
             /\ Policy = "rr" => r = (idx + 1) % Len(cache)
             /\ idx' = IF Policy = "rr" THEN idx + 1 ELSE idx
             /\ LET o == cache[r + 1] IN
-                 /\ econns' = IF removed[o] THEN econns ELSE econns \cup {[id |-> nconn + 1, o |-> o]}
+                 /\ econns' = IF removed[o] THEN econns ELSE econns \cup {[id |-> nconn + 1, o |-> o, st |-> "open"]}
                  /\ elast' = [kind |-> "conn", id |-> nconn + 1, chosen |-> o, allowed |-> Usable, est |-> ~removed[o]]
-  /\ UNCHANGED <<vars, up, snap, succ, fail, nround, ntog>>
+  /\ UNCHANGED <<vars, up, snap, succ, fail, nround, ntog, nhalf>>
 
-ENext == HostOp \/ (\E a \in Addrs : Toggle(a)) \/ Round \/ Conn
+\* one side of an established relay shuts down its write side: side = "chc" the client
+\* (CloseWrite on the client socket; the processor's client->backend copy sees EOF, half-closes
+\* the backend socket and ends), side = "bhc" the backend
+HalfClose(c, side) ==
+  /\ c \in econns /\ c.st = "open" /\ nhalf < MaxHalf
+  /\ econns' = (econns \ {c}) \cup {[c EXCEPT !.st = side]}
+  /\ nhalf' = nhalf + 1
+  /\ elast' = NoE
+  /\ UNCHANGED <<vars, up, snap, succ, fail, idx, nconn, nround, ntog>>
+
+ENext ==
+  \/ HostOp \/ (\E a \in Addrs : Toggle(a)) \/ Round \/ Conn
+  \/ \E c \in econns, side \in {"chc", "bhc"} : HalfClose(c, side)
 
 ESpec == EInit /\ [][ENext]_eall
 
@@ -145,7 +171,8 @@ ConnToUsable ==
     /\ elast.chosen # NoObj => elast.chosen \in elast.allowed /\ elast.est
     /\ elast.chosen = NoObj => elast.allowed = {}
 
-\* established connections to a host are closed when that host is removed
+\* established connections to a host are closed when that host is removed - whatever the
+\* half-close state of the connection
 EstablishedClosed ==
   elast.kind = "op" => elast.must \subseteq elast.closed
 
